@@ -67,6 +67,9 @@ pub struct Handler {
     /// after a set_handler call installs it)
     pub vector: u8,
     pub kind: HandlerKind,
+    /// the handler lives at address 0 (inside the vector area) and its table entry is exactly 0x00000000
+    #[serde(default)]
+    pub at_zero: bool,
 }
 
 #[derive(Clone, Debug, Serialize, Deserialize, PartialEq)]
@@ -151,8 +154,8 @@ pub const DRAM_CODE: u32 = 0x420000;
 pub const DRAM_HANDLERS: u32 = 0x428000;
 pub const DRAM_DATA: u32 = 0x430000;
 pub const DRAM_DATA_LIMIT: u32 = 0x438000;
-pub const DRAM_BIG: u32 = 0x438000;
-pub const DRAM_BIG_LIMIT: u32 = 0x448000;
+pub const DRAM_BIG: u32 = 0x460000;
+pub const DRAM_BIG_LIMIT: u32 = 0x4a0000;
 pub const DRAM_STACK_LO: u32 = 0x44f000;
 pub const DRAM_STACK_TOP: u32 = 0x450000;
 
@@ -192,7 +195,16 @@ impl GuestSpec {
         // ---- handlers (addresses are needed by SetHandler blocks)
         let mut ha = Asm::new(lay.handlers);
         let mut hinfo = Vec::new();
+        let mut zero_handler: Option<Vec<u8>> = None;
         for (i, h) in self.handlers.iter().enumerate() {
+            if h.at_zero {
+                if h.kind != HandlerKind::Empty || zero_handler.is_some() || h.vector == 0 {
+                    return Err("at most one empty handler can live at address 0".into());
+                }
+                zero_handler = Some(vec![0x41, 0x00, 0x56, 0x70]); // BRN ; RTE
+                hinfo.push(HandlerInfo { vector: h.vector, kind: h.kind.clone(), addr: 0, rte: 2, counter: None, end: 4 });
+                continue;
+            }
             let addr = ha.here();
             ha.brn8();
             let cnt = counters[i];
@@ -434,8 +446,12 @@ impl GuestSpec {
                 }
             }
         }
+        if let Some(z) = zero_handler {
+            segments.push((0, z));
+        }
         for (v, addr) in &vt {
-            let top = self.vec_top.wrapping_mul(*v).wrapping_add(self.vec_top);
+            // the entry of a handler at address 0 is all zero, every other entry gets an arbitrary top byte
+            let top = if *addr == 0 { 0 } else { self.vec_top.wrapping_mul(*v).wrapping_add(self.vec_top) };
             let word = ((top as u32) << 24) | (addr & 0x00ff_ffff);
             segments.push((4 * *v as u32, word.to_be_bytes().to_vec()));
         }
